@@ -123,6 +123,20 @@ def gen_single(rng, quick):
             A = [list(Phi[i]) for i in idx]       # active set: a subset of the samples
         else:
             A = feats(m)
+        # Kmm handed over as a VIEW of the caller's Knm array (active set = rows of the sample set):
+        # the first m rows, every second row, or the very same array (full active set)
+        case["alias"] = None
+        if rng.random() < 0.3:
+            al = rng.choice(["head", "strided", "same"])
+            if al == "same":
+                m, A = n, [list(r) for r in Phi]
+            elif al == "strided" and 2 * m - 1 <= n:
+                A = [list(Phi[2 * i]) for i in range(m)]
+            elif m <= n:
+                al, A = "head", [list(Phi[i]) for i in range(m)]
+            else:
+                al = None
+            case["alias"] = al
         case["A"] = A
         case["rcond"] = rng.choice(RCONDS)
     # how the caller presents the arrays (same values): float64 C order, list of lists, Fortran order,
@@ -133,6 +147,7 @@ def gen_single(rng, quick):
         pres += ["int64", "int64", "int32", "float32"]
     case["intfeat"] = intfeat
     case["present"] = rng.choice(pres)
+    case["flagpres"] = rng.choice(["bool", "bool", "np_bool", "int"])     # how with_center / with_trace are given
     return case
 
 
@@ -149,7 +164,26 @@ def kernels(case):
             return np.exp(-g * d2)
         return rbf(Phi, Phi), rbf(Psi, Phi)
     A = np.array(case["A"], dtype=float)
-    return Phi @ A.T, A @ A.T, Psi @ A.T
+    Knm = Phi @ A.T
+    Kmm = alias_view(Knm, case["alias"]).copy() if case.get("alias") else A @ A.T
+    return Knm, Kmm, Psi @ A.T
+
+
+def alias_view(Knm, alias):
+    """the active kernel as a view of the caller's Knm array (or the product A A^T when not aliased)"""
+    m = Knm.shape[1]
+    if alias == "head":
+        return Knm[:m]
+    if alias == "strided":
+        return Knm[::2][:m]
+    if alias == "same":
+        return Knm
+    raise ValueError(alias)
+
+
+def pflag(b, kind):
+    """a constructor flag as bool / numpy.bool_ / 0-1 integer"""
+    return np.bool_(b) if kind == "np_bool" else int(b) if kind == "int" else bool(b)
 
 
 # ------------------------------------------------------------------------------ implementation
@@ -202,7 +236,8 @@ def run_impl(case):
         return H.run_impl(case)
     from skmatter.preprocessing import KernelNormalizer, SparseKernelCenterer
     w = None if case["w"] is None else np.array(case["w"], dtype=float)
-    flags = dict(with_center=case["with_center"], with_trace=case["with_trace"])
+    fp = case.get("flagpres", "bool")
+    flags = dict(with_center=pflag(case["with_center"], fp), with_trace=pflag(case["with_trace"], fp))
     try:
         with np.errstate(all="ignore"):
             pk = case.get("present", "f64")
@@ -213,9 +248,11 @@ def run_impl(case):
                 K, Kt = kernels(case)
                 # the caller's own arrays go in (no defensive copy) and are overwritten after fit
                 Kc, wc = pr(K), pw()
+                before = np.array(Kc, dtype=float)
                 kn = KernelNormalizer(**flags).fit(Kc, sample_weight=wc)
+                unchanged = _same(before, Kc)
                 scribble(Kc, wc)
-                rec = dict(K=K.tolist(), Kt=Kt.tolist(),
+                rec = dict(K=K.tolist(), Kt=Kt.tolist(), caller_arrays_unchanged=bool(unchanged),
                            rows=np.asarray(kn.K_fit_rows_, dtype=float).tolist(),
                            all=float(kn.K_fit_all_), scale=float(kn.scale_),
                            TK=np.asarray(kn.transform(pr(K)), dtype=float).tolist(),
@@ -231,8 +268,18 @@ def run_impl(case):
             Knm, Kmm, Kt = kernels(case)
             rc, kw = eff_rcond(case.get("rcond")), rc_kw(case.get("rcond"))
             Knc, Kmc, wc = pr(Knm), pr(Kmm), pw()
+            al = case.get("alias")
+            if al:
+                Kmc = alias_view(Knc, al)        # Kmm shares memory with the caller's Knm
+            before = [np.array(x, copy=True) for x in (Knc, Kmc)]
             sk = SparseKernelCenterer(**kw, **flags).fit(Knc, Kmc, sample_weight=wc)
-            scribble(Knc, Kmc, wc)
+            unchanged = _same(before[0], Knc) and _same(before[1], Kmc)
+            alias_same = None
+            if al:
+                # the same values as independent arrays: bit-identical
+                sk0 = SparseKernelCenterer(**kw, **flags).fit(pr(Knm), pr(Kmm), sample_weight=pw())
+                alias_same = bool(_same(sk.K_fit_rows_, sk0.K_fit_rows_) and _same(sk.scale_, sk0.scale_))
+            scribble(Knc, wc) if al else scribble(Knc, Kmc, wc)
             P = np.linalg.pinv(Kmm, rc)          # hint 1: what C12 calls the pseudo-inverse (relative cut-off)
             ev, U = sym_eigh(Kmm)                # hint 2: spectral data, the model applies the cut-off itself
             same = None
@@ -241,7 +288,8 @@ def run_impl(case):
                                                               sample_weight=pw(2.0 ** case["pow2"]))
                 same = bool(_same(sk.K_fit_rows_, sk2.K_fit_rows_) and _same(sk.scale_, sk2.scale_))
             return dict(Knm=Knm.tolist(), Kmm=Kmm.tolist(), Kt=Kt.tolist(), P=P.tolist(),
-                        U=U.tolist(), ev=ev.tolist(), pow2_same=same,
+                        U=U.tolist(), ev=ev.tolist(), pow2_same=same, alias_same=alias_same,
+                        caller_arrays_unchanged=bool(unchanged),
                         rows=np.asarray(sk.K_fit_rows_, dtype=float).tolist(), scale=float(sk.scale_),
                         T=np.asarray(sk.transform(pr(Knm)), dtype=float).tolist(),
                         Tt=np.asarray(sk.transform(pr(Kt)), dtype=float).tolist(),
@@ -249,6 +297,63 @@ def run_impl(case):
                             pr(Knm), pr(Kmm), sample_weight=pw()), dtype=float).tolist())
     except Exception as e:  # noqa
         return dict(error=type(e).__name__, error_msg=str(e))
+
+
+# ------------------------------------------------------------------------------ large n (sparse class)
+BIG_NS = [1024, 2048, 1023, 1025]
+
+
+def gen_big(rng, n):
+    """a SparseKernelCenterer problem with MANY samples and a small active set (Knm is n x m); compared
+    oracle-side only (the Coq programs build the n x n Nystrom kernel): K_fit_rows_, scale_ against the
+    linear-cost form  trace(Kc P Kc^T) = sum_i (Kc P)_i . (Kc)_i,  transform of a few rows"""
+    return dict(kind="sparse_big", n=n, m=rng.randint(3, 6), p=rng.randint(3, 8), seed=rng.randrange(2 ** 31),
+                wkind=rng.choice(["none", "random", "integer"]), with_center=rng.random() < 0.8,
+                with_trace=True, flagpres=rng.choice(["bool", "np_bool", "int"]))
+
+
+def run_big(case):
+    """None (property holds / gated) or a message"""
+    from skmatter.preprocessing import SparseKernelCenterer
+    rs = np.random.RandomState(case["seed"])
+    n, m, p = case["n"], case["m"], case["p"]
+    Phi = rs.normal(size=(n, p)) + rs.normal(size=p)
+    A = Phi[rs.choice(n, m, replace=False)]
+    w = None if case["wkind"] == "none" else (rs.uniform(0.1, 2.0, n) if case["wkind"] == "random"
+                                              else rs.randint(1, 5, n).astype(float))
+    Knm, Kmm = Phi @ A.T, A @ A.T
+    if gate_kmm(Kmm, RCOND):
+        return None
+    fp = case.get("flagpres", "bool")
+    with np.errstate(all="ignore"):
+        try:
+            Kc0 = Knm.copy()
+            sk = SparseKernelCenterer(with_center=pflag(case["with_center"], fp),
+                                      with_trace=pflag(case["with_trace"], fp)).fit(Kc0, Kmm.copy(), sample_weight=w)
+            T = np.asarray(sk.transform(Knm[:7].copy()), dtype=float)
+            s = float(sk.scale_)
+            rows_i = np.asarray(sk.K_fit_rows_, dtype=float)
+        except Exception as e:  # noqa
+            return "raised %s: %s" % (type(e).__name__, str(e)[:160])
+        if not _same(Kc0, Knm):
+            return "fit changed the caller's Knm array"
+        P = np.linalg.pinv(Kmm, RCOND)
+        wn = np.ones(n) / n if w is None else w / w.sum()
+        rows = wn @ Knm if case["with_center"] else np.zeros(m)
+        Kc = Knm - rows
+        q = np.sum((Kc @ P) * Kc, axis=1)                  # row quadratic forms: linear in n
+        sr = float(np.sqrt(q.sum() / n))
+        cond = float(np.abs(q).sum() / max(abs(q.sum()), 1e-300))
+        kmax = float(np.max(np.abs(Knm)))
+        if rows_i.shape != rows.shape or np.any(np.abs(rows_i - rows) > 1e-9 * kmax):
+            return "n = %d: K_fit_rows_ is not the weighted column mean of Knm" % n
+        if not np.isfinite(s) or abs(s - sr) > 1e-8 * sr * (1 + cond):
+            return ("n = %d, m = %d: scale_ is %r; sqrt(trace of the centred Nystrom kernel / n) is %r (ratio^2 = %.6f)"
+                    % (n, m, s, sr, (s / sr) ** 2 if sr else float("nan")))
+        E = (Knm[:7] - rows) / sr
+        if T.shape != E.shape or np.any(np.abs(T - E) > 1e-8 * (kmax / sr) * (1 + cond)):
+            return "n = %d: transform is not (K - training column means) / scale" % n
+    return None
 
 
 def ref_scale(case, rec):
@@ -387,6 +492,11 @@ def oracle_body(case, rec):
     n = Phi.shape[0]
     w = np.ones(n, dtype=L) if case["w"] is None else np.array(case["w"], dtype=L)
     w = w / w.sum()
+    if rec.get("caller_arrays_unchanged") is False:
+        return "fit changed the caller's kernel array(s)"
+    if rec.get("alias_same") is False:
+        return ("Kmm passed as a view of the caller's Knm array (%s) gives other fitted attributes than the same "
+                "values passed as independent arrays" % case.get("alias"))
     if rec.get("pow2_same") is False:
         return ("fit with the sample weights multiplied by 2^%d stores different attributes / transforms differently "
                 "(the normalised weights are bit-identical): the result depends on the overall magnitude of the weights"
@@ -532,7 +642,7 @@ def run(ctx):
     ncases = 4000 if ctx.quick else 20000
     cases, recs = [], []
     stats = dict(kinds={}, flags={}, wkinds={}, shapes={}, gated={}, errors=0, rank_deficient_Kmm=0,
-                 penrose_residual_max=[0.0, 0.0, 0.0, 0.0], feature_magnitude={}, rcond={}, presentation={},
+                 penrose_residual_max=[0.0, 0.0, 0.0, 0.0], feature_magnitude={}, rcond={}, presentation={}, kmm_view_of_knm={},
                  pinv_truncates_real_modes=0, eigenvalue_between_relative_and_absolute_cutoff=0,
                  histories=dict(steps=0, refits=0, rejected_fits=0, weighted_then_unweighted=0, set_params=0,
                                 rejected_transforms=0, raised_in_impl=0, inplace_transforms=0, inplace_fit_transforms=0,
@@ -576,6 +686,7 @@ def run(ctx):
             ",m%d" % len(c["A"]) if c["kind"] == "sparse" else "")
         stats["shapes"][sk] = stats["shapes"].get(sk, 0) + 1
         if c["kind"] == "sparse":
+            stats["kmm_view_of_knm"][str(c.get("alias"))] = stats["kmm_view_of_knm"].get(str(c.get("alias")), 0) + 1
             rk = "default" if c["rcond"] is None else "%g" % c["rcond"]
             stats["rcond"][rk] = stats["rcond"].get(rk, 0) + 1
         stats["errors"] += "error" in r
@@ -616,7 +727,9 @@ def run(ctx):
             corr_broken.append(out[-1500:])
             continue
         mismatched += [g[k] for k in lists[0]]
-    mismatched = sorted(set(mismatched) | {i for i, r in enumerate(recs) if "error" in r or r.get("pow2_same") is False})
+    mismatched = sorted(set(mismatched) | {i for i, r in enumerate(recs) if "error" in r or r.get("pow2_same") is False
+                                            or r.get("alias_same") is False or r.get("caller_arrays_unchanged") is False
+                                            or any(x.get("mutated") for x in r.get("steps", []))})
     stats["pow2_weight_factor_exact_comparisons"] = sum(1 for r in recs if r.get("pow2_same") is not None)
     n_search, reported = 0, set()
     search = range(len(cases)) if not po["ok"] else mismatched
@@ -638,6 +751,14 @@ def run(ctx):
                    note="model and implementation disagree beyond rtol %g but the direct oracle accepts the output; %s"
                         % (TOL, diag(ctx, cases[i], recs[i])))
         C.report_violation(ctx, "correspondence KernelNorm model vs implementation broken", rep, found_input=False)
+    big = []
+    for n_big in BIG_NS * (1 if ctx.quick else 3):
+        cb = gen_big(ctx.rng, n_big)
+        msg = run_big(cb)
+        big.append(dict(n=cb["n"], m=cb["m"], weights=cb["wkind"], ok=msg is None))
+        if msg and len(ctx.violations) < MAX_REPORTS + 2:
+            C.report_violation(ctx, "C12 fails on the implementation: " + msg, dict(case=cb), found_input=True)
+    stats["large_n_sparse_cases_oracle_side_only"] = big
     for txt in corr_broken:
         C.report_violation(ctx, "correspondence shard did not evaluate", dict(coq_output=txt), found_input=False)
     if not po["ok"]:
@@ -680,6 +801,10 @@ def run(ctx):
 
 def replay(ctx, obj):
     c = obj["case"]
+    if c.get("kind") == "sparse_big":
+        msg = run_big(c)
+        print("replay:", msg or "property holds on this input now")
+        return 1 if msg else 0
     r = run_impl(c)
     g = gate(c, r)
     msg = None if g else oracle(c, r)
